@@ -47,8 +47,8 @@ def run(tier, seed):
     if k_name or k_dir:
         # the proposed fix (per-name comparison on the success path + only canonical names kept from the served
         # list + direct-child immutable directory) closes the model without any excuse
-        for u in ("forged",) if q else ("forged", "lists", "dirs"):
-            c.mc("db", "MC_DbVerify", f"MC_DbVerify_fixed_{u}.cfg", name="proposed-fix-" + u, workers=12,
+        for u in ("fixed_forged",) if q else ("fixed_forged", "fixed_lists", "fixed_dirs", "t_fixed_forged"):
+            c.mc("db", "MC_DbVerify", f"MC_DbVerify_{u}.cfg", name="proposed-fix-" + u, workers=12,
                  timeout=3000, coverage=False)
     if k_name:
         _expect_violation(c, "MC_DbVerify_unexcused.cfg", "known-finding-in-model", "VerifySound",
